@@ -79,6 +79,8 @@ def run_gen(ctx, rep, rules, only_par=False, only_tags=None, floors=None):
                 gen_rules.check_update_indices(pg, rep, wc)
             elif r == 'G8':
                 gen_rules.check_G8(pg, rep)
+            elif r == 'G17':
+                gen_rules.check_G17(pg, rep)
             elif r == 'G2G7':
                 gen_rules.check_G2_G7(pg, rep)
             elif r == 'G9':
